@@ -6,6 +6,7 @@ package props
 
 func init() {
 	mutants["C01"] = []Mutant{
+		{Name: "nullable-row-polarity", File: "proto/col_nullable.go", Old: "Set:   c.Nulls.Row(i) == boolFalse,", New: "Set:   c.Nulls.Row(i) == boolTrue,", Rule: "C01.nullflag", Construct: "ColNullable"},
 		{Name: "clientinfo-swap-whole-buffer", File: "proto/client_info.go", Old: "bswap.Swap64(b.Buf[start:]) // https://github.com/ClickHouse/ClickHouse/issues/34369\n\t\t\t}\n\t\t\t{\n\t\t\t\tv := c.Span.SpanID()", New: "bswap.Swap64(b.Buf[start-start:]) // https://github.com/ClickHouse/ClickHouse/issues/34369\n\t\t\t}\n\t\t\t{\n\t\t\t\tv := c.Span.SpanID()", Rule: "C01.append", Construct: "ClientInfo"},
 		{Name: "str-truncates-buffer", File: "proto/col_str.go", Old: "func (c ColStr) EncodeColumn(b *Buffer) {\n", New: "func (c ColStr) EncodeColumn(b *Buffer) {\n\tb.Buf = b.Buf[:0]\n", Rule: "C01.append", Construct: "ColStr"},
 		{Name: "arr-swap-offsets-data", File: "proto/col_arr.go", Old: "\tc.Offsets.EncodeColumn(b)\n\tc.Data.EncodeColumn(b)", New: "\tc.Data.EncodeColumn(b)\n\tc.Offsets.EncodeColumn(b)", Rule: "C01.shape", Construct: "ColArr"},
@@ -15,6 +16,7 @@ func init() {
 		{Name: "uint32-size", File: "proto/col_uint32_unsafe_gen.go", Old: "\tconst size = 32 / 8\n\ts.Len *= size", New: "\tconst size = 16 / 8\n\ts.Len *= size", Rule: "C01.width", Construct: "ColUInt32"},
 	}
 	mutants["C02"] = []Mutant{
+		{Name: "lz4hc-selects-lz4", File: "client.go", Old: "\tcase CompressionLZ4HC:\n\t\tcompression = proto.CompressionEnabled\n\t\tcompressionMethod = compress.LZ4HC", New: "\tcase CompressionLZ4HC:\n\t\tcompression = proto.CompressionEnabled\n\t\tcompressionMethod = compress.LZ4", Rule: "C02.compression", Construct: "CompressionLZ4HC"},
 		{Name: "no-terminator-after-query", File: "query.go", Old: "\tif err := c.encodeBlankBlock(ctx); err != nil {\n\t\treturn errors.Wrap(err, \"external data end\")\n\t}\n", New: "", Rule: "C02.order", Construct: "sendQuery"},
 		{Name: "secret-from-quota-key", File: "query.go", Old: "Secret:      q.Secret,", New: "Secret:      q.QuotaKey,", Rule: "C02.wiring", Construct: "Query.Secret"},
 		{Name: "settings-order", File: "query.go", Old: "\tfor _, s := range c.settings {", New: "\tfor _, s := range q.Settings {", Nth: 1, Rule: "C02.wiring", Construct: "querySettings"},
@@ -136,6 +138,7 @@ func init() {
 		{Name: "decimal64-boundary", File: "proto/col_auto.go", Old: "case prec >= 10 && prec < 19:", New: "case prec >= 10 && prec < 20:", Rule: "C19.decimal", Construct: ""},
 	}
 	mutants["C20"] = []Mutant{
+		{Name: "int256-middle-word-not-extended", File: "proto/int256.go", Old: "\t\tlo.High = math.MaxUint64\n", New: "", Rule: "C20.signext", Construct: "proto.Int256FromInt"},
 		{Name: "int128-from-uint64-signed", File: "proto/int128.go", Old: "func Int128FromUInt64(v uint64) Int128 {\n\treturn Int128(UInt128FromUInt64(v))", New: "func Int128FromUInt64(v uint64) Int128 {\n\treturn Int128FromInt(int(v))", Rule: "C20.widen", Construct: "Int128FromUInt64"},
 		{Name: "week-six-days", File: "proto/col_interval.go", Old: "int(i.Value)*7", New: "int(i.Value)*6", Rule: "C20.interval", Construct: "IntervalWeek"},
 		{Name: "hour-is-minute", File: "proto/col_interval.go", Old: "t.Add(time.Hour * time.Duration(i.Value))", New: "t.Add(time.Minute * time.Duration(i.Value))", Rule: "C20.interval", Construct: "IntervalHour"},
